@@ -21,7 +21,7 @@ ASSUMPTIONS = [
     "damage never removes the payload root itself (a missing root is a documented FileNotFoundError)",
 ]
 BUDGET = {
-    "quick": {"examples": 350, "workers": 8, "time_cap": 70},
+    "quick": {"examples": 450, "workers": 8, "time_cap": 70},
     "thorough": {"examples": 12000, "workers": 14, "time_cap": 900},
 }
 
